@@ -16,6 +16,7 @@ RULE = ("TraceKernel.tla is a law table evaluated by TLC on recorded evaluation 
         "Non-trivial = every grid; distinct = (kind, rho, variances, mean). No state space: level exploration.")
 RIDGE_TS = list(range(-32, 33))
 TS = [-80, -40, -24, -16, -8, -4, -2, -1, 0, 1, 2, 4, 8, 16, 24, 40, 80]
+KS_OFF = [-2.5, -1.7, -1.0, -0.5, -0.3, 0.0, 0.4, 0.8, 1.0, 1.9, 2.2, 5.0, 6.0]       # off-lattice decimal multiples of the standard deviation
 ANCH = {"sin(pi/12)": (math.sin(math.pi / 12), (1, 24)), "1/2": (0.5, (1, 12)), "sqrt2/2": (math.sqrt(2) / 2, (1, 8)),
         "sqrt3/2": (math.sqrt(3) / 2, (1, 6)), "sin(5pi/12)": (math.sin(5 * math.pi / 12), (5, 24))}
 OTHER = [0.1, 0.29, 0.31, 0.6, 0.74, 0.76, 0.9, 0.92, 0.93, 0.95, 0.99, 0.999]
@@ -79,6 +80,15 @@ def run(ctx):
         for mu in (MUS if min(v) >= 1e-4 else MUS[:1]):
             meta.append(("product", 0.0, None, mu, v, len(jobs)))
             jobs.append(dict(kind="product", ts=TS, mu=list(mu), vx=v[0], vy=v[1]))
+    # a mean nine orders of magnitude above the standard deviation, chosen so that every lattice point mu + (t/8) sd and the standardised
+    # coordinate (x - mu) / sd are EXACT in binary64 (sd = 3 * 2^-15 and 3 * 2^-14, means multiples of 1/4): any loss is the code's
+    big_mu, big_v = (9437184.5, -3145728.25), (9.0 * 2.0 ** -30, 9.0 * 2.0 ** -28)
+    meta.append(("product", 0.0, None, big_mu, big_v, len(jobs)))
+    jobs.append(dict(kind="product", ts=TS, mu=list(big_mu), vx=big_v[0], vy=big_v[1]))
+    # off-lattice points, decimal means up to 1e11 standard deviations away from the origin
+    for mu, v in (((1.0e7, -2.5e6), (1e-8, 4e-8)), ((3.0e5, 8.0e6), (1e-10, 1e-9)), ((-6.0e8, 4.0e8), (1e-4, 2.5e-5)), ((0.3, -1.7), (0.3, 1.7)), ((-3.5, 7.25), (1e-4, 1e3))):
+        meta.append(("productx", 0.0, None, mu, v, len(jobs)))
+        jobs.append(dict(kind="productx", ks=KS_OFF, mu=list(mu), vx=v[0], vy=v[1]))
     meta.append(("product", 0.0, None, MUS[1], (64.0, 64.0), len(jobs)))
     jobs.append(dict(kind="product", ts=TS, mu=list(MUS[1]), vx=64.0, vy=64.0, intpts=True))
     # ridge scans of strongly (and moderately) correlated kernels with decimal means and non-dyadic standard deviations
@@ -88,6 +98,11 @@ def run(ctx):
                 for zs in (1.0, 0.3, 0.7):      # (steps of 1/8, 0.0375 and 0.0875 standard deviations: the last two are not dyadic)
                     meta.append(("ridge", sgn * r0, (sgn, zs), mu, v, len(jobs)))
                     jobs.append(dict(kind="ridge", ts=RIDGE_TS, mu=list(mu), vx=v[0], vy=v[1], rho=sgn * r0, sgn=sgn, zscale=zs))
+    # far tails: both coordinates up to 48 standard deviations out, in opposite tails for positive and in the same tail for negative correlation
+    for r0 in (0.93, 0.95, 0.99):
+        for rho, sgn in ((r0, -1), (-r0, 1)):
+            meta.append(("ridge", rho, (sgn, 12.0), (0.3, 0.2), (0.01, 0.04), len(jobs)))
+            jobs.append(dict(kind="ridge", ts=RIDGE_TS, mu=[0.3, 0.2], vx=0.01, vy=0.04, rho=rho, sgn=sgn, zscale=12.0))
     upts = []
     for _ in range(200 if quick else 2000):
         w, h = 2 * rng.randint(1, 6), 2 * rng.randint(1, 6)          # half ticks, even so that centre +- w/2 is a whole half tick
@@ -119,6 +134,9 @@ def run(ctx):
                 cases.append(dict(kind="ridge", ts=RIDGE_TS, R=R, sgn=b[0], frechet=int(b[1] == 1.0)))
             elif kind == "limit":
                 cases.append(dict(kind="limit", ts=TS, V=decode(results[at]["V"])))
+            elif kind == "productx":
+                r_ = results[at]
+                cases.append(dict(kind="productx", VG=decode(r_["VG"]), VS=decode(r_["VS"]), NX=decode([r_["NX"]])[0], NY=decode([r_["NY"]])[0]))
             elif kind == "product":
                 r_ = results[at]
                 cases.append(dict(kind="product", ts=TS, VG=decode(r_["VG"]), VS=decode(r_["VS"]), N1=decode([r_["N1"]])[0]))
